@@ -161,6 +161,11 @@ def mutate(rng, tgt):
             k = rng.choice(sorted(d['services']))
             m = re.match(r'Netspoc-(tcp|udp)_(\d+)', k)
             d['services'][k] = svc_def((m.group(1), m.group(2)), 1)
+            if rng.random() < 0.5:
+                # the manager's service has one entry more than the target's (same first entry)
+                d['services'][k] = svc_def((m.group(1), m.group(2)))
+                d['services'][k]['service_entries'].append(dict(id='id2', resource_type='L4PortSetServiceEntry', l4_protocol='TCP',
+                                                                destination_ports=['8080'], source_ports=[]))
         elif e == 'rule_srv' and rules:
             sv = rng.choice(SVCS + [None])
             rng.choice(rules)['srv'] = SP + svc_id(sv) if sv else 'ANY'
